@@ -275,7 +275,7 @@ func verifOneSetting(p vbase.Params, r *vbase.Result, st Settings, bound int64) 
 	if announced == 0 {
 		r.Note("settings announcing 0 scenarios (all replicas are twins): shuffle not exercised")
 	}
-	for _, seed := range []int64{1, 42} {
+	for _, seed := range []int64{1, 42, 0, -1} { // 0 and -1: a seed is a number like any other, not "no seed"
 		if announced == 0 {
 			break
 		}
